@@ -14,8 +14,8 @@ NOTES = {
             "which postponed command is paired with which pending entry by the recursive runner"),
     "C04": ("readers answer Err when not reacting even while the data entity is alive; system-event payload taken once; end() clears the flag; run_initialized_system through RawCallbackSystem/CallbackSystem: body, cleanup, then deferred commands, for ordinary and exclusive systems and early Err returns",
             "probes at arbitrary tree positions (runner)"),
-    "C05": ("reader counter = number of queued reactions; zero listeners: nothing queued, no data entity; counter kernel (done exactly at the n-th decrement, saturating)",
-            "the decrement paths through the runner (normal, postponed, aborted, discarded at root)"),
+    "C05": ("reader counter = number of queued reactions; zero listeners: nothing queued, no data entity; counter kernel; every runner-bound Command::apply reaches the runner exactly once also for a vanished reactor (so its share is released); the runner's abort paths (missing / stale / component-less / lost-at-root target) and its root-level discard run the command's own setup then cleanup exactly once; replayed commands keep their own cleanup; end_broadcast_event / end_entity_event take exactly one share off and drop the payload once at the last reader; end_system_event drops an untaken payload",
+            "composition of these steps over a whole tree (which end_* runs for which scheduled reader is the runner's pairing by system id)"),
     "C06": ("all ReactCache::revoke_* kernels (first entry of that reactor under that key in that list only; emptied key dropped, sibling lists never), stale despawn ids, EntityReactors::remove (every entry of that reactor under that reaction type, nothing else), revoke_reactor does not stop at a dead entity's trigger, EntityReactor::remove queues the reconstructed revoke, tokens have one entry per bundle member incl. duplicates; completeness for duplicate registrations FAILS = known finding F2",
             "immediacy inside a tree follows from per-command flush (environment); revoke_reactor on populated tables exceeded the caps (only the minimal past-a-dead-entity walk is decided)"),
     "C07": ("mode -> handle kind and exactly-once collection; reference count over clones in three drop orders; in-flight despawn reactions keep the reactor; dead-entity despawn registration releases the handle; revoke kernels never drop neighbours' handles",
@@ -24,12 +24,12 @@ NOTES = {
             "removal detection itself is Bevy's RemovedComponents + scheduler (environment); histories between polls; type-wide removal lists inside a poll exceeded the caps"),
     "C10": ("real Arc + Drop signal: nothing receivable while a clone exists, exactly one message after the last drop (three drop orders, second entity's signal alive); clones of the despawner share the channel; garbage_collect_entities despawns exactly the released entities, is not stopped by an already-dead id, never touches an entity with a live clone, is idempotent",
             "threads (Kani has none; the channel is a stub); hierarchies beyond one level"),
-    "C11": ("tracker quiescence steps (pending = prepared - started, flag clear after end), postponement buffer strands nothing, callback present again after insert, dispatch leaves the cached reaction buffer empty",
-            "the runner's root-level discard/reset and every abort path"),
-    "C12": ("per-system FIFO of all four trackers as an inductive step from any pending list <= 4; postponement buffer FIFO",
-            "nested replays by the recursive runner"),
-    "C13": ("RawCallbackSystem / CallbackSystem: initialized exactly once, Local continues across runs, New -> Initialized never back; spawned / cached syscall systems keep their state per key; storage take/insert round trip",
-            "persistence across postponed and nested runs (runner)"),
+    "C11": ("tracker quiescence steps; postponement buffer strands nothing; callback present again after the run; the runner resets the counter and empties the buffer at the root for every pre-state within the bounds (replay step with up to 3 postponed commands), and every abort path runs setup+cleanup; end_* clear every reacting flag",
+            "that no tree position other than the root observes counter 0 (composition over the tree); the error path of a system that removed its own storage component"),
+    "C12": ("per-system FIFO of all four trackers as an inductive step from any pending list <= 4; postponement buffer FIFO; the runner appends a postponed command behind earlier ones, unchanged, and replays the finished system's postponed commands in the order they were postponed, each with its own setup and cleanup (up to 3 postponed commands, symbolic ownership)",
+            "more than 3 postponed commands; the pairing of pending tracker entries with replayed commands across different event kinds"),
+    "C13": ("RawCallbackSystem / CallbackSystem: initialized exactly once, Local continues across runs, New -> Initialized never back; spawned / cached syscall systems keep their state per key; storage take/insert round trip; the runner puts the very callback it took back into its storage after the run, at every tree depth, before replaying",
+            "persistence observed through whole trees (composition of the runner steps)"),
     "C14": ("React and ReactResInner accessors: reads and get_noreact queue nothing, get_mut exactly one trigger per call, set_if_neq stores + returns old + one trigger iff different; ReactCommands::insert queues try_insert + one trigger iff the entity exists at call time; the dispatch the triggers end in is decided under C01",
             "what the queued trigger closures do when applied (unnameable closure types); an entity dying between queue and apply (design-phase observation F3)"),
     "C16": ("cleanup_reactor_data removes local data iff no registration of that reactor remains on the entity; EntityReactor::remove queues one revoke + one cleanup per distinct entity; tokens name each entity once; entity bundles name the added entity",
@@ -40,9 +40,11 @@ NOTES = {
             "targets dying while commands for them are postponed or mid-dispatch (runner)"),
 }
 
+NOTES["C02"] = ("the recursive runner decomposed into steps on its real body: every runner-bound Command::apply reaches the runner exactly once (also for a vanished target); missing / stale / component-less target: nothing runs, setup+cleanup once; busy target inside a tree: postponed unchanged, nothing runs; idle target: setup, system exactly once, cleanup, callback reinserted, at ANY tree depth; replay step (nested calls recorded): exactly the finished system's postponed commands are re-run, each once, in order, others kept; at the root leftovers are discarded through setup+cleanup and nothing stays postponed",
+                "the composition of the steps into whole trees of arbitrary shape and depth (induction over the tree is prose, not a solver query); more than 3 postponed commands; the error path of a system removing its own storage component; where the runner polls removals/despawns and collects garbage")
+NOTES["C09"] = ("the ordering ingredients on the real code: a command for an idle system runs in-line inside the runner call (setup, system, cleanup, then the callback's deferred commands: callbacks.*); a command for an executing system is appended behind earlier postponed ones and nothing of it runs now; when a system finishes, its postponed commands are replayed at once, in order, before the runner returns to whatever was queued after it, while other systems' postponed commands keep their order; postponement buffer FIFO",
+                "the total order over all runs of a tree = these steps composed with Bevy's per-command flush (environment contract E1, checked by the conformance run, not by the solver); removal/despawn reactions' polling points")
 NOT_APPLICABLE = {
-    "C02": "carried by the recursive runner (syscommand_runner take/run/reinsert + replay loop through Bevy's World, boxed FnMut callbacks and stored fn pointers): not symbolically executable with Kani/CBMC here (DESIGN.md section 1, P1-P3, P11); no function-level obligation is a meaningful necessary condition by itself",
-    "C09": "an ordering relation over all pairs of runs in a tree, produced by Bevy's per-command flush (environment) and the recursive replay logic; neither can be symbolically executed here (DESIGN.md section 7); the buffer FIFO ingredient is decided under C12",
     "C15": "the once-wrapper is a closure over World that runs the system, despawns itself and revokes through world.react(), i.e. through flush and the recursive runner (DESIGN.md section 7)",
 }
 
